@@ -71,6 +71,7 @@ def bin_inputs(W, j="", cross=True, psd_cs=True, pos=True):
     M2 = W.real("M2" + j)
     n = W.int("n" + j, lo=1)
     fj = W.real("f" + j, lo=0)    # any frequency, DC and Nyquist included
+    rj = W.real("r" + j); Lj = W.int("L" + j, lo=1); bj = W.real("b" + j)    # plan fields stored with the result: arbitrary here
     if cross:
         xr, xi = W.real("XYr" + j), W.real("XYi" + j)
     if W.sym:
@@ -82,7 +83,9 @@ def bin_inputs(W, j="", cross=True, psd_cs=True, pos=True):
         XY = SC(xr, xi) if cross else SC(XX, SR(z3.RealVal(0)))
     else:
         XY = complex(xr, xi) if cross else complex(XX, 0.0)
-    return dict(XX=XX, YY=YY, XY=XY, S2=S2, S12=S12, M2=M2, navg=n, f=fj)
+    if W.sym:
+        W.assume(rj > 0)
+    return dict(XX=XX, YY=YY, XY=XY, S2=S2, S12=S12, M2=M2, navg=n, f=fj, r=rj, L=Lj, b=bj)
 
 
 def mk(W, bins, cross, fs, f=None, extra=None):
@@ -91,6 +94,11 @@ def mk(W, bins, cross, fs, f=None, extra=None):
     fvals = f if f is not None else [b["f"] if "f" in b else float(i + 1) for i, b in enumerate(bins)]
     if W.sym:
         d = {k: oarr([b[k] for b in bins]) for k in ("XX", "YY", "XY", "S2", "S12", "M2", "navg")}
+        for k in ("r", "L", "b"):
+            if all(k in b for b in bins):
+                d[k] = oarr([b[k] for b in bins])
+        if all("navg" in b for b in bins):
+            d["K"] = oarr([b["navg"] for b in bins])
         d["f"] = oarr(fvals) if any(isinstance(v, SR) for v in fvals) else rnp.array(fvals, dtype=float)
         if extra:
             d.update(extra)
@@ -100,6 +108,9 @@ def mk(W, bins, cross, fs, f=None, extra=None):
          "XY": rnp.array([b["XY"] for b in bins], dtype=complex), "S2": rnp.array([b["S2"] for b in bins], dtype=float),
          "S12": rnp.array([b["S12"] for b in bins], dtype=float), "M2": rnp.array([b["M2"] for b in bins], dtype=float),
          "navg": rnp.array([b["navg"] for b in bins], dtype=rnp.int64), "f": rnp.array(fvals, dtype=float)}
+    if all("r" in b for b in bins):
+        d.update(r=rnp.array([b["r"] for b in bins], dtype=float), L=rnp.array([b["L"] for b in bins], dtype=rnp.int64), b=rnp.array([b["b"] for b in bins], dtype=float),
+                 K=rnp.array([b["navg"] for b in bins], dtype=rnp.int64))
     if extra:
         d.update(extra)
     return A.SpectrumResult(d, {}, cross, fs)
